@@ -393,6 +393,13 @@ def run_scenario(args, dom, cap, cold=False):
             for cmd, before, after_ in zip(sc['obs'], pre, post):
                 if (cmd.startswith('dump C') or cmd.startswith('autocommit')) and before != after_:
                     msgs.append(('CIF changed by a failed call', 'the call returned %d but "%s" differs from its answer before the call' % (rc, cmd), {'before': before, 'after': after_}))
+            # "stay valid": whatever the failed call left in a caller-owned value or packet, each of its members must still answer the
+            # accessors (a character or number value whose text cannot be had with memory available, a list that cannot be counted,
+            # is a corrupted object: later ordinary calls - get_text, clone, write - fail on it)
+            for cmd, after_ in zip(sc['obs'], post):
+                txt = json.dumps(after_)
+                if re.search(r'<(get_text|count|get_element|get_keys|get_item|get_names) rc=', txt):
+                    msgs.append(('value corrupted by a failed call', 'the call returned %d and "%s" now contains a member that does not answer its accessor' % (rc, cmd), {'after': after_}))
         elif rc == rc0:
             res['absorbed'] += 1
             # success (or the fault-free outcome) with a failed allocation: the complete fault-free effect is required
